@@ -262,7 +262,7 @@ PROPS["C11"] = dict(
     level="exploration",
     engine="E1",
     parts=[dict(bin="e1_space", timeout_s={"quick": 900, "thorough": 7200})],
-    rule="rank/select: EVERY len in 0..=L and every power of two +-1 up to 2^26 x densities {ones, zeros, one per 512, alternating}; bit vectors and bit-field vectors built or grown only: every len 0..=300 x 9 widths x {new, new_unaligned, push, resize} and collect / extend from iterators with exact, too-large and unknown size hints (filter, take_while, flat_map, chain); Elias-Fano (plain build): ALL (n,u) with n in 0..=64, u in 0..=U plus the split probes n 2^k +-1 and 2^63, MAX; functions/filters: arithmetic num_vertices x num_shards of every ShardEdge for EVERY n <= N then a 1% geometric grid to 10^12 with the largest admissible shard floor(1.01 n / shards), real builds of functions and filters at regime boundaries for 4 value widths, and real builds of functions of EVERY value width (1..=BITS of usize, u16, u8; 7 widths of u32, 6 of u64) on bit-field and boxed backends at 1000 and 100 000 keys; non-trivial = non-empty structure",
+    rule="rank/select: EVERY len in 0..=L and every power of two +-1 up to 2^26 x densities {ones, zeros, one per 512, alternating}; bit vectors and bit-field vectors built or grown only: every len 0..=300 x 9 widths x {new, new_unaligned, push, resize} and collect / extend from iterators with exact, too-large and unknown size hints (filter, take_while, flat_map, chain); Elias-Fano (plain build): ALL (n,u) with n in 0..=64, u in 0..=U plus the split probes n 2^k +-1 and 2^63, MAX; both Elias-Fano builders at n in {1000, 7000, 100000} (thorough to 700000) x u = n 2^k y for k <= 40 and 8 values of y in [1,2); functions/filters: arithmetic num_vertices x num_shards of every ShardEdge for EVERY n <= N then a 1% geometric grid to 10^12 with the largest admissible shard floor(1.01 n / shards), real builds of functions and filters at regime boundaries for 4 value widths, and real builds of functions of EVERY value width (1..=BITS of usize, u16, u8; 7 widths of u32, 6 of u64) on bit-field and boxed backends at 1000 and 100 000 keys; non-trivial = non-empty structure",
     alphabet="additive constants fixed in DESIGN.md section 5 (C11): rank structures and Select9 + 1024 bits; Elias-Fano + 1152 bits; functions 2 segments per shard (MWHC: 3 x 128 cells per shard) + 8 cells; 1.135 applies to the default sharded logic from 100000 keys",
     bound={"quick": "L=5000, U=600, N=60000", "thorough": "L=200000, U=4096, N=4 10^6"},
     oracle="mem_size(SizeFlags::default()) of the structure minus that of the wrapped structure <= documented fraction of the bit length + constant; closed formulas from the property text",
@@ -288,8 +288,15 @@ PROPS["C12"] = dict(
     level="exploration",
     engine="E1",
     parts=[dict(bin="e1_oob", timeout_s={"quick": 900, "thorough": 3600}),
-           dict(bin="e1_oob", profile="vg", runner="valgrind", tag="valgrind", tiers=["thorough"], timeout_s={"thorough": 7200})],
-    rule="case = (structure instance, safe method, out-of-domain argument): argument alphabet {len, len+1, 2 len, len+63, len+64, 2^32, 2^63, MAX/2+1, MAX-1, MAX} for indices / positions / ranks / start positions / query values, absent keys and arbitrary signatures for functions and filters, iterators polled repeatedly after None, pop on empty, zero chunk sizes, block size 0; structures: 24 bit vectors (empty, singleton, word/block boundaries) with BitVec/AtomicBitVec and 13 rank/select stacks, BitFieldVec<u8|u16|usize|u128> x widths x lengths {0,1,k,k+1,3k+1}, AtomicBitFieldVec, plain slices, 9 Elias-Fano sequences (empty with u = 0 and u > 0, singleton, duplicates, last == u == MAX) plus a grid of (n <= 66, 58 universes) x {sequential, concurrent builder} x {last < u, last = u} covering every residue of the upper-bits length modulo 64, 5 rear-coded lists x 3 block sizes, functions over 0/1/2/10/1000 keys for 7 shard/edge x backend combinations and two filters, GF(2) systems, signature store; every case is distinct and counted as non-trivial",
+           dict(bin="e1_oob", profile="vg", runner="valgrind", tag="valgrind", tiers=["thorough"], timeout_s={"thorough": 7200}),
+           # in-domain calls: the enumerations of the functional properties, run here for their memory-safety
+           # verdicts only (a process abort by the UB checks / a segfault is reported under C12)
+           dict(bin="e1_rank_sel", opts={"prop": "C02"}, tag="in-domain-select", crashes_only=True),
+           dict(bin="e1_ef", opts={"prop": "C04"}, tag="in-domain-elias-fano", crashes_only=True),
+           dict(bin="e1_rank_sel", opts={"prop": "C01"}, tag="in-domain-rank", crashes_only=True, tiers=["thorough"]),
+           dict(bin="e1_rcl", tag="in-domain-rear-coded", crashes_only=True, tiers=["thorough"]),
+           dict(bin="e1_bulk", tag="in-domain-bulk", crashes_only=True, tiers=["thorough"])],
+    rule="case = (structure instance, safe method, out-of-domain argument): argument alphabet {len, len+1, 2 len, len+63, len+64, 2^32, 2^63, MAX/2+1, MAX-1, MAX} for indices / positions / ranks / start positions / query values, absent keys and arbitrary signatures for functions and filters, iterators polled repeatedly after None, pop on empty, zero chunk sizes, block size 0; structures: 24 bit vectors (empty, singleton, word/block boundaries) with BitVec/AtomicBitVec and 13 rank/select stacks, BitFieldVec<u8|u16|usize|u128> x widths x lengths {0,1,k,k+1,3k+1}, AtomicBitFieldVec, plain slices, 9 Elias-Fano sequences (empty with u = 0 and u > 0, singleton, duplicates, last == u == MAX) plus a grid of (n <= 66, 58 universes) x {sequential, concurrent builder} x {last < u, last = u} covering every residue of the upper-bits length modulo 64, 5 rear-coded lists x 3 block sizes, functions over 0/1/2/10/1000 keys for 7 shard/edge x backend combinations and two filters, GF(2) systems, signature store; in addition the in-domain enumerations of C02 and C04 (thorough: also C01, C09, C10) are run for their memory-safety verdicts only; every case is distinct and counted as non-trivial",
     alphabet="see rule; methods documented as unchecked are excluded, safe methods that forward to unchecked code are the target",
     bound={"quick": "as in rule", "thorough": "same table, run twice: strict profile, and a release build without debug assertions under valgrind memcheck (invalid reads/writes attributed to the announced case)"},
     oracle="each call must return or panic by unwinding; a process abort by the standard library's UB checks (out-of-range get_unchecked), SIGSEGV or any other crash is a memory-safety violation (recorded by the supervisor with the source function that performed the access); where the documentation fixes the result for out-of-domain input (rank beyond len = num_ones, select beyond the count = None, index_of/succ/pred of absent or out-of-universe values) the result is checked too",
